@@ -56,9 +56,18 @@ def gen_struct(rng, k):
     st["xg_labels"] = rng.choice([[], ["_geom_angle"]])
     st["xg"] = [["%.2f" % rng.uniform(60, 180) for l in st["xg_labels"]] for _ in st["angles"]]
     # extra per-torsion columns; the torsion loop lists dihedrals followed by impropers, impropers read back "." in those columns
-    st["xd_labels"] = rng.choice([[], ["_geom_torsion"]])
-    st["xd"] = [["%.1f" % rng.uniform(-180, 180) for l in st["xd_labels"]] for _ in st["dihedrals"]]
+    two = ["_geom_torsion", "_geom_torsion_publ_flag"]
+    st["xd_labels"] = rng.choice([[], ["_geom_torsion"], two] + ([two, two] if st["impropers"] else []))
+    st["xd"] = [[("%.1f" % rng.uniform(-180, 180)) if l == "_geom_torsion" else rng.choice(["y", "n"]) for l in st["xd_labels"]] for _ in st["dihedrals"]]
+    # impropers may carry columns with the same labels in their own order (same, reversed, a subset, none)
+    xd = st["xd_labels"]
+    st["xi_labels"] = rng.choice([[], list(xd), list(xd[::-1]), list(xd[::-1]), list(xd[1:]), list(xd[:1])]) if (st["impropers"] and xd) else []
+    st["xi"] = [[("%.1f" % rng.uniform(-180, 180)) if l == "_geom_torsion" else rng.choice(["Y", "N"]) for l in st["xi_labels"]] for _ in st["impropers"]]
     return st
+
+
+NON_P1 = ["P 21/c", "P 1 21/c 1", "P -1", "P121/n1", "P 1 2/m 1", "P 1 1 2", "P 1 21 1", "P 1 c 1", "P-1", "C 2/m", "F m -3 m", "P 4/m m m", "P 2",
+          "I 41/a m d", "P 1 1 21/b", "P 1 n 1", "R -3 c", "P 1 2 1", "C 1 2/c 1"]
 
 
 def to_atoms(st):
@@ -84,13 +93,15 @@ def to_atoms(st):
                          charges=list(st["chg"]), extra_atom_labels=st["xa_labels"], extra_atom_fields=st["xa"] if st["xa_labels"] else [],
                          extra_bond_labels=st["xb_labels"], extra_bond_fields=st["xb"] if (st["xb_labels"] and st["bonds"]) else [],
                          extra_angle_labels=st["xg_labels"], extra_angle_fields=st["xg"] if (st["xg_labels"] and st["angles"]) else [],
-                         extra_dihedral_labels=st["xd_labels"], extra_dihedral_fields=st["xd"] if (st["xd_labels"] and st["dihedrals"]) else [], **kw)
+                         extra_dihedral_labels=st["xd_labels"], extra_dihedral_fields=st["xd"] if (st["xd_labels"] and st["dihedrals"]) else [],
+                         extra_improper_labels=st.get("xi_labels", []), extra_improper_fields=st["xi"] if (st.get("xi_labels") and st["impropers"]) else [], **kw)
     with o, e:
         return Atoms(elements=list(st["els"]), positions=np.array(st["pos"], float), cell=np.array(st["cell"], float), charges=list(st["chg"]),
                      extra_atom_labels=st["xa_labels"], extra_atom_fields=st["xa"] if st["xa_labels"] else [],
                      extra_bond_labels=st["xb_labels"], extra_bond_fields=st["xb"] if (st["xb_labels"] and st["bonds"]) else [],
                      extra_angle_labels=st["xg_labels"], extra_angle_fields=st["xg"] if (st["xg_labels"] and st["angles"]) else [],
-                     extra_dihedral_labels=st["xd_labels"], extra_dihedral_fields=st["xd"] if (st["xd_labels"] and st["dihedrals"]) else [], **kw)
+                     extra_dihedral_labels=st["xd_labels"], extra_dihedral_fields=st["xd"] if (st["xd_labels"] and st["dihedrals"]) else [],
+                         extra_improper_labels=st.get("xi_labels", []), extra_improper_fields=st["xi"] if (st.get("xi_labels") and st["impropers"]) else [], **kw)
 
 
 def write(a, fract=True):
@@ -150,7 +161,9 @@ def compare(st, A, B):
     for lab, fields, got_l, got_f in (("atom", (st["xa_labels"], st["xa"]), B.extra_atom_labels, B.extra_atom_fields),
                                       ("bond", (st["xb_labels"], st["xb"] if st["bonds"] else []), B.extra_bond_labels, B.extra_bond_fields),
                                       ("angle", (st["xg_labels"], st["xg"] if st["angles"] else []), B.extra_angle_labels, B.extra_angle_fields),
-                                      ("torsion", (st["xd_labels"], (st["xd"] if st["dihedrals"] else []) + [["."] * len(st["xd_labels"]) for _ in st["impropers"]]), B.extra_dihedral_labels, B.extra_dihedral_fields)):
+                                      ("torsion", (st["xd_labels"], (st["xd"] if st["dihedrals"] else []) +
+                                                   [[(r[st["xi_labels"].index(l)] if l in st.get("xi_labels", []) else ".") for l in st["xd_labels"]] for r in (st.get("xi") or [[] for _ in st["impropers"]])]),
+                                       B.extra_dihedral_labels, B.extra_dihedral_fields)):
         exp_l, exp_f = fields
         if not exp_f and lab != "atom":
             continue
@@ -201,7 +214,7 @@ def main(tier, seed, replay=None):
             cases += [(gen_struct(run.rng, k), "generated") for k in range(n)]
         lits = []
         import ase.io
-        for st, kind in cases:
+        for ci, (st, kind) in enumerate(cases):
             for name, *_ in KINDS:
                 st[name] = [tuple(t) for t in st[name]]
             run.cov["evaluations"] += 1
@@ -210,7 +223,7 @@ def main(tier, seed, replay=None):
             bad = []
             labels = rows = None
             back = None
-            acc_p1, acc_other = True, False
+            acc_p1, guard_obs = True, []
             try:
                 A = to_atoms(st)
                 T1 = write(A)
@@ -254,17 +267,26 @@ def main(tier, seed, replay=None):
                     bad.append("Cartesian-coordinate file is not read back at the written coordinates")
                 if [str(x) for x in Bc.elements] != st["els"]:
                     bad.append("Cartesian-coordinate file changes elements")
-                # the space-group guard
+                # the space-group guard: every declared name other than P1 / P 1 must be refused, whatever it starts with
                 acc_p1 = True
-                Tn = T1.replace("'P 1'", "'P 21/c'").replace('"P 1"', '"P 21/c"')
-                if Tn == T1:
-                    Tn = re.sub(r"(_symmetry_space_group_name_H-M\s+)(\S+ ?\S*)", r"\g<1>'P 21/c'", T1)
-                try:
-                    read(Tn)
-                    acc_other = True
-                    bad.append("a file declaring space group P 21/c was accepted")
-                except Exception:
-                    acc_other = False
+                names = NON_P1 if ci == 0 else [NON_P1[0]] + [NON_P1[(2 * ci + j) % len(NON_P1)] for j in range(2)]
+                for nm in names:
+                    Tn = re.sub(r"(_symmetry_space_group_name_H-M\s+)('[^']*'|\"[^\"]*\"|\S+)", lambda mo: mo.group(1) + "'" + nm + "'", T1)
+                    assert Tn != T1
+                    try:
+                        read(Tn)
+                        guard_obs.append((nm, True))
+                        bad.append("a file declaring space group %s was accepted" % nm)
+                    except Exception:
+                        guard_obs.append((nm, False))
+                for nm in ("P1", "P 1"):
+                    Tn = re.sub(r"(_symmetry_space_group_name_H-M\s+)('[^']*'|\"[^\"]*\"|\S+)", lambda mo: mo.group(1) + "'" + nm + "'", T1)
+                    try:
+                        read(Tn)
+                        guard_obs.append((nm, True))
+                    except Exception:
+                        guard_obs.append((nm, False))
+                        bad.append("a file declaring space group %s was refused" % nm)
             except Exception as ex:    # noqa
                 bad.append("raised %s: %s" % (type(ex).__name__, ex))
             if bad:
@@ -276,7 +298,7 @@ def main(tier, seed, replay=None):
                 run.nontrivial(st)
             if labels is not None:
                 terms = list(st["bonds"]) + list(st["angles"]) + list(st["dihedrals"]) + list(st["impropers"])
-                for tag, acc in ((Some("P 1"), acc_p1), (Some("P 21/c"), acc_other)):
+                for tag, acc in [(Some("P 1"), acc_p1)] + [(Some(nm), a) for nm, a in guard_obs]:
                     lits.append("mk_case %s %s %s %s %s %s %s" % (gal(st["els"]), gal(labels), gal([[N(v) for v in t] for t in terms]), gal(rows),
                                                                   gal(Some([[N(v) for v in t] for t in back])), gal(tag), gal(bool(acc))))
             if kind == "generated" and st.get("place") == "boundary":
@@ -292,7 +314,8 @@ def main(tier, seed, replay=None):
              "far outside and on the boundary of the cell, charges, bonds / angles / dihedrals / impropers, extra per-atom / per-bond / per-angle / "
              "per-torsion columns.  Each is written, read back and compared with the statement; written three times over (second = third generation); "
              "read by ASE's independent CIF reader; re-read with standard-uncertainty parentheses; written and read in Cartesian form; altered to declare "
-             "P 21/c (must be rejected).  The discrete part (labels, label rows, index lookup, guard) is compared with the Coq model.  Non-trivial = >= 1 term "
+             "each of 19 non-P1 Hermann-Mauguin names, several of which begin with 'P 1' (all for the first structure, three per later structure; must be "
+             "rejected) and P1 / P 1 (must be accepted); impropers carry extra columns labelled like the dihedrals' in the same, reversed or partial order.  The discrete part (labels, label rows, index lookup, guard) is compared with the Coq model.  Non-trivial = >= 1 term "
              "and >= 2 elements.",
         assumptions=["PyCifRW 5.0.1 (installed version) writes and parses the text; ASE's cellpar_to_cell builds the cell", "the numerical part is tested to the printed precision, not modelled"])
 
